@@ -20,7 +20,7 @@ def showResOptBytes (r : Res (Option Bytes)) : String :=
 
 /-- all accessors of an endpoint ID on one line -/
 def eidAcc (e : Eid) : String :=
-  "node=" ++ showResOptBytes e.node ++ " nodeid=" ++ showResOptBytes e.nodeId
+  "node=" ++ showOptBytes e.node ++ " nodeid=" ++ showOptBytes e.nodeId
   ++ " svc=" ++ showOptBytes e.serviceName ++ " isnode=" ++ showBool e.isNodeId
   ++ " valid=" ++ showBool (eidOk e) ++ " str=" ++ hexOfBytes (printEid e)
 
@@ -82,6 +82,20 @@ def answer (line : String) : String :=
     match bytesOfHex h with
     | some s => resStr showEid (parseEid s)
     | none => "bad-op"
+  | ["eid.bad", h] =>
+    match bytesOfHex h with
+    | some s => resStr showEid (parseEid s)
+    | none => "bad-op"
+  | ["eid.canon", kind, a, b] =>
+    match bytesOfHex a, bytesOfHex b with
+    | some a, some b =>
+      let s := if kind == "dtn" then asc "dtn://" ++ a ++ [SLASH] ++ b
+               else if kind == "ipn" then asc "ipn:" ++ a ++ [46] ++ b else asc "dtn:none"
+      (match parseEid s with
+       | .ok e => "ok " ++ showEid e ++ " " ++ eidAcc e
+       | .err _ => "err"
+       | .panic _ => "panic")
+    | _, _ => "bad-op"
   | ["eid.withdtn", h] =>
     match bytesOfHex h with
     | some s => resStr showEid (withDtn s)
@@ -159,6 +173,13 @@ def answer (line : String) : String :=
   | "id" :: rest =>
     match parseBundle rest with
     | some (b, []) => "ok " ++ hexOfBytes b.id ++ " " ++ hexOfBytes b.display
+    | _ => "bad-op"
+  | "idpair" :: rest =>
+    match parseBundle rest with
+    | some (b1, "|" :: rest2) =>
+      (match parseBundle rest2 with
+       | some (b2, []) => "ok " ++ hexOfBytes b1.id ++ " " ++ hexOfBytes b2.id ++ " " ++ showBool (b1.id == b2.id)
+       | _ => "bad-op")
     | _ => "bad-op"
   | "info" :: rest =>
     match parseBundle rest with
